@@ -1,4 +1,6 @@
 import RosuModel.Model.PipelinePerf
+import RosuModel.Model.PipelinePerfObjs
+import RosuModel.Model.PipelineOsuWire
 import RosuModel.Model.PipelineWire
 import RosuModel.Model.FullPerfWire
 
@@ -101,10 +103,61 @@ def handlePIPEPtaiko (args : List String) : String :=
     one ++ gout
   | _ => "bad-pipep-taiko"
 
+/-! ## osu!standard (decoded objects)
+
+`PIPEP osu <nf so bl tc lazer nsha> <prio> <acc|-> <combo> <large ticks> <small ticks> <slider ends> <n300> <n100>
+<n50> <misses> <gradual state, 8 numbers> <the 17 arguments of a PIPE osu request>` -/
+
+def showOsuPerf (pre : String) (r : GenState.Res (OsuPerfAttrs Float)) : String :=
+  match r with
+  | .panic => s!"{pre}GSPANIC"
+  | .ok p =>
+    s!"{pre}pp={showF p.out.pp} {pre}acc={showF p.out.ppAcc} {pre}aim={showF p.out.ppAim} {pre}fl={showF p.out.ppFlashlight} {pre}speed={showF p.out.ppSpeed} {pre}emc={showF p.out.effectiveMissCount} {pre}sd={showOptF p.out.speedDeviation} {pre}st={showF p.difficulty.stars} {pre}mc={p.difficulty.maxCombo} {pre}ns={p.difficulty.nSliders}"
+
+def handlePIPEPosu (args : List String) : String :=
+  match args with
+  | [extra, prio, acc, combo, lt, stt, se, n300, n100, n50, misses, gstate,
+      version, sm, tr, refl, cs, arw, ar, hp, og, ook, om, clock, sl, flags, take, gidx, objs] =>
+    let parsed := if objs = "-" then [] else (objs.splitOn ";").map (Rosu.PipelineOsu.Wire.parseObj version sm tr)
+    if parsed.any Option.isNone then "bad-object"
+    else
+      let os := parsed.filterMap id
+      match bits flags, bits extra with
+      | [td, rx, ap, fl, hd], [nf, so, bl, tc, lazer, nsha] =>
+        let f64 := Rosu.Stack.Wire.f64
+        let st : Rosu.PipelineOsu.Settings Float :=
+          { cs := f64 cs, arWindow := f64 arw, ar := f64 ar, hp := f64 hp, odGreat := f64 og, odOk := f64 ook,
+            odMeh := f64 om, clockRate := f64 clock, stackLeniency := f64 sl, version := version.toNat?.getD 0,
+            reflection := refl.toNat?.getD 0, mods := { td := td, rx := rx, ap := ap, fl := fl }, hd := hd }
+        let x : OsuPerfExtra := ⟨nf, so, bl, tc, lazer, nsha⟩
+        let b : OsuB Float :=
+          { acc := optFloat acc, combo := optNat combo, largeTickHits := optNat lt, smallTickHits := optNat stt,
+            sliderEndHits := optNat se, n300 := optNat n300, n100 := optNat n100, n50 := optNat n50,
+            misses := optNat misses }
+        let A := Rosu.ConvOsu.Wire.ieee
+        let E := Rosu.SliderEvents.floatArith
+        let fuel := Rosu.SliderEvents.driverFuel
+        let tk := if take == "-" then none else some (nat! take)
+        let one := showRes (osuPerfFromMap A E fuel st x tk (parsePrio prio) b os) (showOsuPerf "")
+        let gs := if gidx = "-" then [] else (gidx.splitOn ",").map (fun s => s.toNat?.getD 0)
+        let s8 : OsuState :=
+          match natList gstate with
+          | [a, b, c, d, e, f, g, h] => ⟨a, b, c, d, e, f, g, h⟩
+          | _ => ⟨0, 0, 0, 0, 0, 0, 0, 0⟩
+        let gout := String.join (gs.map fun i =>
+          " " ++ showRes (osuGradualPerfValue A E fuel st x i s8 os) fun v =>
+            match v with
+            | none => s!"g{i}=none"
+            | some r => showOsuPerf s!"g{i}." r)
+        one ++ gout
+      | _, _ => "bad-flags"
+  | _ => "bad-pipep-osu"
+
 def handlePIPEP (args : List String) : String :=
   match args with
   | "mania" :: rest => handlePIPEPmania rest
   | "taiko" :: rest => handlePIPEPtaiko rest
+  | "osu" :: rest => handlePIPEPosu rest
   | _ => "bad-pipep"
 
 end Rosu.PipelinePerf.Wire
